@@ -36,6 +36,35 @@ _unit_cache = {}
 _cpu_sem = threading.BoundedSemaphore(NCPU)
 
 
+class _MemBudget:
+    """Keeps the sum of the expected memory of the running solver processes below ~80 % of RAM: obligations that declare mem_gb (the heavy
+    ones) weigh half their limit, the others 1.5 GB.  Without it 16 parallel 10 GB queries are killed by the kernel and reported INCONCLUSIVE."""
+    def __init__(self):
+        try:
+            kb = int([l for l in open("/proc/meminfo") if l.startswith("MemTotal")][0].split()[1])
+        except Exception:
+            kb = 32 * 1024 * 1024
+        self.total = 0.8 * kb / 1024 / 1024
+        self.used = 0.0
+        self.cv = threading.Condition()
+
+    def acquire(self, w):
+        w = min(w, self.total)
+        with self.cv:
+            while self.used + w > self.total and self.used > 0:
+                self.cv.wait()
+            self.used += w
+        return w
+
+    def release(self, w):
+        with self.cv:
+            self.used -= w
+            self.cv.notify_all()
+
+
+_mem_budget = _MemBudget()
+
+
 def sh(cmd, timeout=None, cwd=None, mem_gb=None, out_path=None, procs=None):
     """Run cmd (list) in its own process group. Returns (rc, output, wall, timed_out, rss_kb)."""
     t0 = time.time()
@@ -319,10 +348,14 @@ def run_solver(ob, binary, logbase, witness=False):
             for w in wprops:
                 cmd += ["--property", w]
         logp = "%s.%s%s.log" % (logbase, be, ".wit" if witness else "")
-        with _cpu_sem:
-            if done.is_set():
-                return
-            rc, out, wall, to, rss = sh(cmd, timeout=timeout, mem_gb=mem, out_path=logp, procs=procs)
+        w = _mem_budget.acquire(d["mem_gb"] / 2.0 if "mem_gb" in d else 1.5)
+        try:
+            with _cpu_sem:
+                if done.is_set():
+                    return
+                rc, out, wall, to, rss = sh(cmd, timeout=timeout, mem_gb=mem, out_path=logp, procs=procs)
+        finally:
+            _mem_budget.release(w)
         r = parse_cbmc(out)
         if wprops and r["verdict"] in ("FAIL", "HOLDS"):
             # every reachability witness must be violated (each marks a branch the obligation claims to cover)
